@@ -47,6 +47,7 @@ STD_TRANSPARENT = (
     "core::option::Option::<T>::map", "core::option::Option::<T>::map_or", "core::option::Option::<T>::map_or_else",
     "core::option::Option::<T>::ok_or", "core::option::Option::<T>::ok_or_else", "core::option::Option::<T>::and_then",
     "core::option::Option::<T>::or_else", "core::option::Option::<T>::unwrap_or", "core::option::Option::<T>::unwrap_or_else",
+    "core::option::Option::<T>::unwrap_or_default",
     "core::option::Option::<T>::is_some", "core::option::Option::<T>::is_none", "core::option::Option::<T>::as_ref",
     "core::option::Option::<T>::as_deref",
     "core::option::Option::<T>::filter", "core::option::Option::<T>::ok_or",
